@@ -40,17 +40,19 @@ type utChain struct {
 	eligible map[byte]bool
 }
 
-func (c *utChain) Engine(*types.WorkObjectHeader) consensus.Engine              { return nil }
-func (c *utChain) GetHeaderOrCandidateByHash(common.Hash) *types.WorkObject     { return c.pt }
-func (c *utChain) NodeCtx() int                                                 { return common.ZONE_CTX }
-func (c *utChain) IsGenesisHash(common.Hash) bool                               { return false }
-func (c *utChain) GetHeaderByHash(common.Hash) *types.WorkObject                { return c.pt }
-func (c *utChain) GetBlockByHash(common.Hash) *types.WorkObject                 { return c.pt }
-func (c *utChain) CheckIfEtxIsEligible(_ common.Hash, l common.Location) bool   { return c.eligible[l.BytePrefix()] }
-func (c *utChain) CheckInCalcOrderCache(common.Hash) (*big.Int, int, bool)      { return nil, 0, false }
-func (c *utChain) AddToCalcOrderCache(common.Hash, int, *big.Int)               {}
-func (c *utChain) CalcBaseFee(*types.WorkObject) *big.Int                       { return big.NewInt(1) }
-func (c *utChain) CalcOrder(*types.WorkObject) (*big.Int, int, error)           { return nil, 0, nil }
+func (c *utChain) Engine(*types.WorkObjectHeader) consensus.Engine          { return nil }
+func (c *utChain) GetHeaderOrCandidateByHash(common.Hash) *types.WorkObject { return c.pt }
+func (c *utChain) NodeCtx() int                                             { return common.ZONE_CTX }
+func (c *utChain) IsGenesisHash(common.Hash) bool                           { return false }
+func (c *utChain) GetHeaderByHash(common.Hash) *types.WorkObject            { return c.pt }
+func (c *utChain) GetBlockByHash(common.Hash) *types.WorkObject             { return c.pt }
+func (c *utChain) CheckIfEtxIsEligible(_ common.Hash, l common.Location) bool {
+	return c.eligible[l.BytePrefix()]
+}
+func (c *utChain) CheckInCalcOrderCache(common.Hash) (*big.Int, int, bool) { return nil, 0, false }
+func (c *utChain) AddToCalcOrderCache(common.Hash, int, *big.Int)          {}
+func (c *utChain) CalcBaseFee(*types.WorkObject) *big.Int                  { return big.NewInt(1) }
+func (c *utChain) CalcOrder(*types.WorkObject) (*big.Int, int, error)      { return nil, 0, nil }
 
 type utKey struct {
 	priv *btcec.PrivateKey
@@ -594,4 +596,3 @@ func runUtxo(seed uint64, n int, outDir string, replay string) {
 	}
 	o.Close(nil)
 }
-
